@@ -45,6 +45,9 @@ def check_compat_table(model, col, R):
     from ..attrs import Predicates
 
     ic = model.func(TYPES, "IsCompatible")
+    from ..sem import expand_module_helpers as _xmh
+
+    ic = _xmh(model, TYPES, ic)  # a branch extracted into a module-level helper is read in place
     ln, rn = ic.args.args[0].arg, ic.args.args[1].arg
     P = Predicates(model, TYPES, "Type")
     C = {n: model.cls(TYPES, n) for n in ("Float", "VectorType", "MatrixType", "ArrayType", "StructType")}
@@ -204,6 +207,9 @@ def check_compat_guards(model, col, R):
     from ..sem import local_env, rtext
 
     ic = model.func(TYPES, "IsCompatible")
+    from ..sem import expand_module_helpers as _xmh
+
+    ic = _xmh(model, TYPES, ic)  # a branch extracted into a module-level helper is read in place
     l, r = ic.args.args[0].arg, ic.args.args[1].arg
     env = {k: v for k, v in local_env(ic).items() if k not in (l, r)}
     seen = {"array sizes": False, "array components": False, "array vs non-array": False, "vector sizes": False, "matrix shape": False, "scalars": False, "primitive vs aggregate": False}
